@@ -1201,6 +1201,19 @@ pub fn run_corner(ch: &mut Chooser, ctx: &mut Ctx) {
         }
     };
     ctx.count("corner.encodes");
+    // another engine on another machine must produce the same bytes at the edge of the envelope too (C03)
+    if kind.layer != Layer::Rs {
+        let other = Kind { layer: kind.layer, engine: if kind.engine == EngineKind::NoSimd { if EngineKind::Avx2.available() { EngineKind::Avx2 } else { EngineKind::Naive } } else { EngineKind::NoSimd } };
+        if let Ok(Ok(rec2)) = ctx.shadow(|| fresh_encode(other, k, r, b, &originals)) {
+            ctx.count("c03.cross_engine_rounds");
+            if rec2 != recovery {
+                let j = rec2.iter().zip(recovery.iter()).position(|(a, c)| a != c).unwrap_or(0);
+                if ctx.viol(&["C03"], "cross-engine", format!("cross/corner-encode/{}-{}", kind.engine.name(), other.engine.name()), format!("({k},{r},{b}) {} rate: recovery {j} differs between {} and {}", if high { "high" } else { "low" }, kind.name(), other.name()), false) {
+                    return;
+                }
+            }
+        }
+    }
     let (mism, compared) = check_r1(high, k, r, &originals, &recovery, data_seed);
     ctx.count_n("r1.symbols_compared", compared as u64);
     if let Some(why) = mism {
@@ -1211,7 +1224,16 @@ pub fn run_corner(ch: &mut Chooser, ctx: &mut Ctx) {
     // loss pattern: maximal loss in several shapes
     let total = k + r;
     let mut keep: Vec<(bool, usize)> = Vec::with_capacity(k);
-    match ch.pick("corner.pattern", 5) {
+    match ch.pick("corner.pattern", 6) {
+        5 => {
+            // everything arrives: all k originals and all r recovery shards (maximal surplus)
+            for i in 0..k {
+                keep.push((false, i));
+            }
+            for j in 0..r {
+                keep.push((true, j));
+            }
+        }
         0 => {
             // as many recovery shards as possible, then originals from the end
             for j in 0..r.min(k) {
